@@ -3010,6 +3010,14 @@ impl QueryJob {
                                 let mut deleted = 0;
                                 let mut inserted = 0;
 
+                                // Instantiate the targets of every matched binding first, then
+                                // apply all deletes before any insert. Interleaving them per
+                                // binding made the outcome depend on the order of the bindings:
+                                // a tuple inserted for one binding could be removed again by the
+                                // delete of a later one (swapping (1,2) and (2,1) lost a tuple).
+                                let mut delete_tuples: Vec<(String, Tuple)> = Vec::new();
+                                let mut insert_tuples: Vec<(String, Tuple)> = Vec::new();
+
                                 for result_tuple in results {
                                     // Build bindings from query result: var_name → Value
                                     let bindings: std::collections::HashMap<String, Value> =
@@ -3033,14 +3041,8 @@ impl QueryJob {
                                             })
                                             .collect();
                                         if let Some(vals) = tuple_vals {
-                                            let count = storage
-                                                .delete_tuples_from(
-                                                    &kg_name,
-                                                    &target.relation,
-                                                    vec![Tuple::new(vals)],
-                                                )
-                                                .map_err(|e| e.to_string())?;
-                                            deleted += count;
+                                            delete_tuples
+                                                .push((target.relation.clone(), Tuple::new(vals)));
                                         }
                                     }
 
@@ -3054,16 +3056,24 @@ impl QueryJob {
                                             })
                                             .collect();
                                         if let Some(vals) = tuple_vals {
-                                            let (new_count, _) = storage
-                                                .insert_tuples_into(
-                                                    &kg_name,
-                                                    &target.relation,
-                                                    vec![Tuple::new(vals)],
-                                                )
-                                                .map_err(|e| e.to_string())?;
-                                            inserted += new_count;
+                                            insert_tuples
+                                                .push((target.relation.clone(), Tuple::new(vals)));
                                         }
                                     }
+                                }
+
+                                for (relation, tuple) in delete_tuples {
+                                    let count = storage
+                                        .delete_tuples_from(&kg_name, &relation, vec![tuple])
+                                        .map_err(|e| e.to_string())?;
+                                    deleted += count;
+                                }
+
+                                for (relation, tuple) in insert_tuples {
+                                    let (new_count, _) = storage
+                                        .insert_tuples_into(&kg_name, &relation, vec![tuple])
+                                        .map_err(|e| e.to_string())?;
+                                    inserted += new_count;
                                 }
 
                                 // Track insert count for metrics
